@@ -6,6 +6,7 @@ Part 1: the scanners and the tokeniser never drop, alter or duplicate text
 import DTML.Scan
 import DTML.Parse
 import DTML.Render
+import DTML.Lemmas.Fuel
 set_option linter.unusedVariables false
 namespace DTML.Props.C01
 open DTML.Scan DTML.Parse
@@ -436,6 +437,78 @@ theorem literal_only_when_rendered (env : Env) (fuel : Nat) (s : Render.Text) (s
     simp [renderBlk, condLoop, evalExpr, truthy, renderBlocks, pieceEmpty, es]
 
 end Rendering
+
+
+/-! ### Part 4: rendering composes (block level) -/
+
+section Compose
+open DTML.Render DTML.Lemmas.Fuel
+
+/-- **Rendering the concatenation of two block lists is the concatenation of their renderings**:
+if `a` renders to the pieces `ps` (leaving state `st1`) and `b`, started from there, renders to
+`qs`, then `a ++ b` renders to `ps ++ qs` — for some (hence, by fuel monotonicity, every larger)
+amount of fuel.  (The namespace `b` starts from is the one `a` started from: C08.) -/
+theorem render_concat (env : Env) : ∀ (a b : List Blk) (st st1 st2 : St) (ps qs : List Piece) (n m : Nat),
+    renderBlocks env n a st = (.ok ps, st1) → renderBlocks env m b st1 = (.ok qs, st2) →
+    ∃ k, renderBlocks env k (a ++ b) st = (.ok (ps ++ qs), st2) := by
+  intro a
+  induction a with
+  | nil =>
+    intro b st st1 st2 ps qs n m ha hb
+    cases n with
+    | zero => simp [renderBlocks] at ha
+    | succ n =>
+      simp only [renderBlocks, Prod.mk.injEq, Res.ok.injEq] at ha
+      obtain ⟨rfl, rfl⟩ := ha
+      exact ⟨m, by simpa using hb⟩
+  | cons x a' ih =>
+    intro b st st1 st2 ps qs n m ha hb
+    cases n with
+    | zero => simp [renderBlocks] at ha
+    | succ n =>
+      simp only [renderBlocks] at ha
+      cases hx : renderBlk env n x st with
+      | mk rx sx =>
+        rw [hx] at ha
+        cases rx with
+        | ok p1 =>
+          simp only at ha
+          cases hr : renderBlocks env n a' sx with
+          | mk rr sr =>
+            rw [hr] at ha
+            cases rr with
+            | ok p2 =>
+              simp only [Prod.mk.injEq, Res.ok.injEq] at ha
+              obtain ⟨rfl, rfl⟩ := ha
+              obtain ⟨k, hk⟩ := ih b sx sr st2 p2 qs n m hr hb
+              refine ⟨max n k + 1, ?_⟩
+              have e1 := renderBlk_lift env n x st (.ok p1) sx hx (by simp) (max n k) (Nat.le_max_left _ _)
+              have e2 := renderBlocks_lift env k (a' ++ b) sx (.ok (p2 ++ qs)) st2 hk (by simp) (max n k) (Nat.le_max_right _ _)
+              simp only [List.cons_append, renderBlocks, e1, e2, List.append_assoc]
+            | raise e => simp at ha
+            | ret v => simp at ha
+            | oom => simp at ha
+        | raise e => simp at ha
+        | ret v => simp at ha
+        | oom => simp at ha
+
+/-- joining text pieces is concatenation: the text of `ps ++ qs` is the text of `ps` followed by the text of `qs` -/
+theorem decodeAll_append (env : Env) (ps qs : List Piece) :
+    decodeAll env (ps ++ qs) = (decodeAll env ps).bind fun s => (decodeAll env qs).map fun t => s ++ t := by
+  induction ps with
+  | nil => simp [decodeAll]
+  | cons p t ih =>
+    cases p with
+    | text s =>
+      simp only [List.cons_append, decodeAll, ih]
+      cases decodeAll env t <;> simp
+      cases decodeAll env qs <;> simp
+    | bytes b =>
+      simp only [List.cons_append, decodeAll, ih]
+      cases decodeBytes env b <;> cases decodeAll env t <;> simp
+      cases decodeAll env qs <;> simp
+
+end Compose
 
 /-- the first literal of a source is never touched -/
 theorem adj_false (l : Text) : adj false l = l := rfl
